@@ -134,8 +134,20 @@ def carrier_cases():
             ctx_flags = []
             for k, v in CONTEXT.get(opt, {}).items():
                 ctx_flags += flag_argv(k, v)
+            if opt != "syntax":
+                # the same value for code piped through stdin (no file of the tree is touched)
+                cases.append(mk("carrier", f"{opt}={val}:toml:stdin", {"stylua.toml": M.toml_text(want)}, ["-"], stdin=PROBE,
+                                carrier="toml-stdin", carrier_stdin=True, **meta))
             if not (opt == "sort_requires" and not val):
                 cases.append(mk("carrier", f"{opt}={val}:flag", pf, ctx_flags + flag_argv(opt, val) + ["."], carrier="flag", **meta))
+                # flags do not depend on .editorconfig support being on
+                cases.append(mk("carrier", f"{opt}={val}:flag:no-editorconfig", pf, ctx_flags + flag_argv(opt, val) + ["--no-editorconfig", "."],
+                                carrier="flag-no-editorconfig", **meta))
+                if opt != "syntax":
+                    cases.append(mk("carrier", f"{opt}={val}:flag:stdin", {}, ctx_flags + flag_argv(opt, val) + ["-"], stdin=PROBE,
+                                    carrier="flag-stdin", carrier_stdin=True, **meta))
+                    cases.append(mk("carrier", f"{opt}={val}:flag:no-editorconfig:stdin", {}, ["--no-editorconfig"] + ctx_flags + flag_argv(opt, val) + ["-"],
+                                    stdin=PROBE, carrier="flag-no-editorconfig-stdin", carrier_stdin=True, **meta))
                 base = dict(CONTEXT.get(opt, {}), **{opt: other_value(opt, val)})
                 cases.append(mk("carrier", f"{opt}={val}:flag-over-toml", dict(pf, **{"stylua.toml": M.toml_text(base)}),
                                 flag_argv(opt, val) + ["."], carrier="flag-over-toml", base=base, **meta))
@@ -152,6 +164,14 @@ def carrier_cases():
                 sec = "*.lua" if (len(spelling) + len(str(val))) % 2 else "*"
                 cases.append(mk("carrier", f"{opt}={val}:editorconfig:{spelling}", dict(pf, **{".editorconfig": M.editorconfig_text([(sec, kv)])}),
                                 ["."], carrier="editorconfig", spelling=spelling, **meta))
+                if opt != "syntax":
+                    # stdin is Lua code: the `*.lua` sections apply to it, with and without a file name
+                    for sec2 in ("*.lua", "*"):
+                        ec = {".editorconfig": M.editorconfig_text([(sec2, kv)])}
+                        cases.append(mk("carrier", f"{opt}={val}:editorconfig:{spelling}:[{sec2}]:stdin", ec, ["-"], stdin=PROBE,
+                                        carrier="editorconfig-stdin", carrier_stdin=True, spelling=spelling, **meta))
+                        cases.append(mk("carrier", f"{opt}={val}:editorconfig:{spelling}:[{sec2}]:stdin-filepath", ec, ["--stdin-filepath", "probe.lua", "-"], stdin=PROBE,
+                                        carrier="editorconfig-stdin-filepath", carrier_stdin=True, spelling=spelling, **meta))
     # indent_width when the indentation is tabs: it only enters the width of a line (nested long calls of the
     # probe), and every carrier must hand over the same number - also an .editorconfig that sets tab_width besides
     # indent_size (indent_size decides unless it says `tab`)
@@ -334,14 +354,27 @@ def lua_targets(case):
     return sorted(p for p in M.tree_files(case) if p.endswith(".lua"))
 
 
+STDIN_KEY = "proj/probe.lua"  # code piped through stdin is compared under the name of the probe file
+
+
 def observe_outputs(case, o):
     """{file: bytes after the run}"""
-    return {p: o.after.get(p) for p in lua_targets(case)}
+    d = {p: o.after.get(p) for p in lua_targets(case)}
+    if case.get("carrier_stdin"):
+        d[STDIN_KEY] = o.out if isinstance(o.out, bytes) else str(o.out).encode("utf-8")
+    return d
 
 
 def expected_outputs(case, cfg_):
     exp = {}
     any_err = False
+    if case.get("carrier_stdin"):
+        r = M.ref_format(case["stdin"], cfg_)
+        if r[0] == "ok":
+            exp[STDIN_KEY] = r[1].encode("utf-8")
+        else:
+            exp[STDIN_KEY] = b""
+            any_err = True
     for p in lua_targets(case):
         src = case["files"][p]
         by_file = (case.get("want_by_file") or {}).get(p)
